@@ -116,6 +116,18 @@ register(
     "DESIGN.md §3 C17",
 )
 
+register(
+    "C03",
+    "bounded-exhaustive enumeration of ALL signals of length <= L over a 4-letter alphabet (packed as columns) x sr/fn x Q x stype x ic x time x peak x eqsine x frequency-vector order, against the exact two-state SDOF response to the linearly interpolated input; algebraic invariants; resampling contract; closed forms of srs_frf/vrs/Miles",
+    "Every signal of the bounded space and every option combination is pushed through srs and the returned response "
+    "histories, time vectors, windows and spectra are compared with an independent exact response (one-step matrices "
+    "from a 40-digit expm, long-double stepping, ic rule and one-cycle padding taken from the statement); the peak "
+    "statistic, eqsine, scaling, column-order, packaging and pvelo/pacce relations are checked on every case.",
+    "Trusted: reference in vf/checks/c03.py + vf/ref/ode_ref.py; tolerance 2000*eps*(sr/fn)^2 (xN/20 for relacce); "
+    "signal alphabet {-1,0,.5,1}, lengths <= 5 plus three longer fixed records.",
+    "DESIGN.md §3 C03",
+)
+
 
 def build():
     checks = []
